@@ -105,6 +105,15 @@ pub fn run(thorough: bool) -> i32 {
                 if p.n > 1 && p.a_large != p.a_small {
                     multi += 1;
                 }
+                if l % 4 == 1 || l < 64 {
+                    for cp in [0u8, 5, 129] {
+                        if let Some((k, w)) = plain_fti_roundtrip(cp, *b, *e, l) {
+                            if first.is_none() {
+                                first = Some((k, w, (*b, *e, l)));
+                            }
+                        }
+                    }
+                }
                 for q in [true, false] {
                     if let Some((k, w, did)) = raptor_roundtrip(*b, *e, l, q) {
                         if did {
@@ -192,6 +201,13 @@ pub fn run(thorough: bool) -> i32 {
                 }
             }
         }
+        if v.is_none() {
+            for cp in [0u8, 5, 129] {
+                if let Some(x) = plain_fti_roundtrip(cp, *b, *e, *l) {
+                    v = Some(x);
+                }
+            }
+        }
         v
     });
     for ((b, e, l), r) in bcases.iter().zip(bres) {
@@ -269,6 +285,61 @@ fn raptor_roundtrip(b: u64, e: u64, l: u64, raptorq: bool) -> Option<(Option<Str
                 ))
             } else {
                 Some((None, String::new(), true))
+            }
+        }
+    }
+}
+
+/// the receiver's side for the schemes that carry B itself: EXT_FTI built by the independent codec,
+/// parsed by flute, partition computed from what flute parsed (B up to 2^32-1 for No-Code)
+fn plain_fti_roundtrip(cp: u8, b: u64, e: u64, l: u64) -> Option<(String, String)> {
+    let bmax: u64 = match cp {
+        0 => u32::MAX as u64,
+        5 => 255,
+        _ => 65535,
+    };
+    if e == 0 || e > 65535 || b == 0 || b > bmax || l == 0 || l >= (1u64 << 48) {
+        return None;
+    }
+    let refp = rfc::partition(b as u128, l as u128, e as u128)?;
+    let fti = match cp {
+        0 => rfc::fti_nocode(l, e as u16, b as u32),
+        5 => rfc::fti_rs28(l, e as u16, b as u8, 255),
+        _ => rfc::fti_sbs(l, 0, e as u16, b as u16, 65535),
+    };
+    let mut sp = rfc::Spec::minimal(cp, 1, 1);
+    sp.exts = vec![fti];
+    sp.payload = vec![0; 1];
+    if cp == 129 {
+        sp.payload_id = vec![0, 0, 0, 0, 0, 1, 0, 0]; // 32-bit SBN, 16-bit source block length, 16-bit ESI
+    }
+    let bytes = rfc::encode(&sp);
+    let r = catch(|| {
+        let pkt = flute::core::alc::parse_alc_pkt(&bytes).map_err(|e| e.0.to_string())?;
+        let oti = pkt.oti.clone().ok_or("no oti".to_string())?;
+        Ok::<_, String>((oti.maximum_source_block_length as u64, oti.encoding_symbol_length as u64, pkt.transfer_length))
+    });
+    let name = match cp {
+        0 => "NoCode",
+        5 => "RS28",
+        _ => "RS28-underspecified",
+    };
+    match r {
+        Err(p) => Some((format!("C07/panic/{}", panic_sig(&p)), format!("{} FTI (L={},E={},B={}) panicked: {}", name, l, e, b, p))),
+        Ok(Err(er)) => Some((format!("C07/fti-rejected/{}", name), format!("{} FTI (L={},E={},B={}) rejected: {}", name, l, e, b, er))),
+        Ok(Ok((b2, e2, tl))) => {
+            if tl != Some(l) || e2 != e {
+                return Some((format!("C07/fti-fields/{}", name), format!("{} FTI (L={},E={},B={}) parsed as L={:?} E={}", name, l, e, b, tl, e2)));
+            }
+            if b2 == 0 {
+                return Some((format!("C07/receiver-partition-differs/{}", name), format!("{} B={} E={} L={}: receiver takes B'=0 from the EXT_FTI", name, b, e, l)));
+            }
+            let got = block_partitioning(b2, l, e);
+            let same = got.3 as u128 == refp.n && got.0 as u128 == refp.a_large && got.1 as u128 == refp.a_small && (refp.a_large == refp.a_small || got.2 as u128 == refp.nb_large);
+            if !same {
+                Some((format!("C07/receiver-partition-differs/{}", name), format!("{} B={} E={} L={}: receiver takes B'={} from the EXT_FTI and partitions {:?}; sender has ({},{},{},{})", name, b, e, l, b2, got, refp.a_large, refp.a_small, refp.nb_large, refp.n)))
+            } else {
+                None
             }
         }
     }
